@@ -20,18 +20,35 @@ RULE = ('operand pairs: L x qd x independent bond profiles x every sector-consis
         'parameter products; non-trivial = both operands non-zero with at least one bond of dimension >= 2')
 BUDGET = {'quick': 400, 'thorough': 3600}
 DTYPES = ['cc', 'rr', 'rc', 'cr']
+# dtypes varying from site to site within one operand (see _site_dtypes)
+DTYPES_SITE = ['mr', 'rm', 'mm', 'wm']
 QDS = [[0, 1], [1, -1], [0, 0], [0]]
+
+
+def _site_dtypes(A, code):
+    """
+    Per-site dtypes of an operand: 'r' all real, 'c' all complex, 'm' real boundary tensors with complex interior,
+    'w' complex first tensor and real elsewhere (True is read as 'r', False as 'c').
+    """
+    code = {True: 'r', False: 'c'}.get(code, code)
+    L = len(A)
+    real_site = {'r': [True] * L, 'c': [False] * L,
+                 'm': [i in (0, L - 1) for i in range(L)],
+                 'w': [i != 0 for i in range(L)]}[code]
+    return [np.ascontiguousarray(a.real) if r else a for a, r in zip(A, real_site)]
 
 
 def mk_mps(ctx, k, qd, qD, real):
     m = MPS(qd, qD, fill='postpone')
-    m.A = palette.mps_tensors(ctx.rng(k), qd, qD, 'real' if real else 'complex')
+    m.A = _site_dtypes(palette.mps_tensors(ctx.rng(k), qd, qD, 'complex'), real) if real not in (True, 'r') else \
+        palette.mps_tensors(ctx.rng(k), qd, qD, 'real')
     return m
 
 
 def mk_mpo(ctx, k, qd, qD, real):
     m = MPO(qd, qD, fill='postpone')
-    m.A = palette.mpo_tensors(ctx.rng(k), qd, qD, 'real' if real else 'complex')
+    m.A = _site_dtypes(palette.mpo_tensors(ctx.rng(k), qd, qD, 'complex'), real) if real not in (True, 'r') else \
+        palette.mpo_tensors(ctx.rng(k), qd, qD, 'real')
     return m
 
 
@@ -53,11 +70,11 @@ def _pairs(structs):
             yield a, b
 
 
-def _mps_pair_cases(Ls, qds, Ds):
+def _mps_pair_cases(Ls, qds, Ds, dts=DTYPES):
     for L in Ls:
         for qd in qds:
             for a, b in _pairs(palette.mps_structs(L, qd, Ds)):
-                for dt in DTYPES:
+                for dt in dts:
                     yield ['mps_pair', qd, a, b, dt]
 
 
@@ -95,8 +112,8 @@ def run_case(case, ctx):
     kind = case[0]
     if kind == 'mps_pair':
         _, qd, qa, qb, dt = case
-        a = mk_mps(ctx, 0, qd, qa, dt[0] == 'r')
-        b = mk_mps(ctx, 1, qd, qb, dt[1] == 'r')
+        a = mk_mps(ctx, 0, qd, qa, {'r': True, 'c': False}.get(dt[0], dt[0]))
+        b = mk_mps(ctx, 1, qd, qb, {'r': True, 'c': False}.get(dt[1], dt[1]))
         va, vb = vec(a), vec(b)
         ctx.nontrivial = bool(np.any(va) and np.any(vb)) and max(map(len, qa + qb)) >= 2
         ctx.cls(f'mps_pair:L={len(qa)-1}')
@@ -114,8 +131,8 @@ def run_case(case, ctx):
         # operands untouched is C19; result bond dims are sums (L>1) - not stated, not judged
     elif kind == 'mpo_pair':
         _, qd, qa, qb, dt = case
-        a = mk_mpo(ctx, 0, qd, qa, dt[0] == 'r')
-        b = mk_mpo(ctx, 1, qd, qb, dt[1] == 'r')
+        a = mk_mpo(ctx, 0, qd, qa, {'r': True, 'c': False}.get(dt[0], dt[0]))
+        b = mk_mpo(ctx, 1, qd, qb, {'r': True, 'c': False}.get(dt[1], dt[1]))
         ma, mb = mat(a), mat(b)
         ctx.nontrivial = bool(np.any(ma) and np.any(mb)) and max(map(len, qa + qb)) >= 2
         ctx.cls(f'mpo_pair:L={len(qa)-1}')
@@ -136,8 +153,8 @@ def run_case(case, ctx):
             ctx.calls += 2
     elif kind == 'apply':
         _, qd, qo, qp, dt = case
-        o = mk_mpo(ctx, 0, qd, qo, dt[0] == 'r')
-        p = mk_mps(ctx, 1, qd, qp, dt[1] == 'r')
+        o = mk_mpo(ctx, 0, qd, qo, {'r': True, 'c': False}.get(dt[0], dt[0]))
+        p = mk_mps(ctx, 1, qd, qp, {'r': True, 'c': False}.get(dt[1], dt[1]))
         mo, vp = mat(o), vec(p)
         ctx.nontrivial = bool(np.any(mo) and np.any(vp)) and max(map(len, qo + qp)) >= 2
         ctx.cls(f'apply:L={len(qo)-1}')
@@ -294,14 +311,18 @@ def spaces(tier, seed):
         hist,
         Space('mps_pairs', core.chunked(_mps_pair_cases(Ls, QDS, Ds), 400), run_case=run_case, sig=sig,
               bounds={'L': Ls, 'qd': QDS, 'D': Ds, 'dtypes': DTYPES, 'ops': ['+', '-']}),
+        Space('mps_pairs_site_dtypes', core.chunked(itertools.chain(_mps_pair_cases([3], QDS[:2] if tier == 'quick' else QDS, [1, 2],
+                                                                                   ['mr', 'wm'] if tier == 'quick' else DTYPES_SITE),
+                                                                   _mps_pair_cases([] if tier == 'quick' else [4], QDS[:1], [1, 2], ['mr', 'wm'])), 400), run_case=run_case, sig=sig,
+              bounds={'L': '3 (quick) / 3,4 (thorough)', 'D': [1, 2], 'dtypes': "per-site: m = real boundary tensors, complex interior; w = complex first tensor only"}),
         Space('mpo_pairs', core.chunked(_mpo_pair_cases(Lmpo, qds_mpo, [1, 2]), 200), run_case=run_case, sig=sig,
               bounds={'L': Lmpo, 'qd': qds_mpo, 'D': [1, 2], 'dtypes': DTYPES, 'ops': ['+', '-', '@', 'as_matrix dense/sparse']}),
         Space('apply', core.chunked(_apply_cases(Lmpo, qds_mpo, [1, 2]), 300), run_case=run_case, sig=sig,
               bounds={'L': Lmpo, 'qd': qds_mpo, 'D': [1, 2], 'dtypes': DTYPES}),
-        Space('mpo_pairs_L3', core.chunked(_mpo_pair_cases([3], [[0, 1]] if tier == 'quick' else qds_mpo, [1, 2], ['rc'] if tier == 'quick' else DTYPES), 200),
-              run_case=run_case, sig=sig, bounds={'L': [3], 'D': [1, 2], 'dtypes': 'rc, cr (quick) / all (thorough)'}),
-        Space('apply_L3', core.chunked(_apply_cases([3], [[0, 1]] if tier == 'quick' else qds_mpo, [1, 2], ['cr'] if tier == 'quick' else DTYPES), 300),
-              run_case=run_case, sig=sig, bounds={'L': [3], 'D': [1, 2], 'dtypes': 'rc, cr (quick) / all (thorough)'}),
+        Space('mpo_pairs_L3', core.chunked(_mpo_pair_cases([3], [[0, 1]] if tier == 'quick' else qds_mpo, [1, 2], ['rc', 'mr'] if tier == 'quick' else DTYPES + DTYPES_SITE), 200),
+              run_case=run_case, sig=sig, bounds={'L': [3], 'D': [1, 2], 'dtypes': 'rc/cr and per-site mr (quick) / all + per-site mr, rm, mm, wm (thorough)'}),
+        Space('apply_L3', core.chunked(_apply_cases([3], [[0, 1]] if tier == 'quick' else qds_mpo, [1, 2], ['cr', 'mr'] if tier == 'quick' else DTYPES + DTYPES_SITE), 300),
+              run_case=run_case, sig=sig, bounds={'L': [3], 'D': [1, 2], 'dtypes': 'rc/cr and per-site mr (quick) / all + per-site mr, rm, mm, wm (thorough)'}),
         Space('chained', core.chunked(_chain_cases([1, 2, 3], [[0, 1], [0, 0]]), 100), run_case=run_case, sig=sig,
               bounds={'L': [1, 2, 3], 'expressions': ['((A+B)@C) psi', '(psi+phi)-phi']}),
         Space('identity', core.chunked(_identity_cases(tier), 100), run_case=run_case, sig=sig,
